@@ -78,6 +78,8 @@ func checkC05(c *Checker) {
 			}
 			nret++
 			m := mods(o)
+			// effects in loops that the path's own conditions empty (a helper that returned 0) did not happen
+			m = nonVacuous(m, o.St.facts)
 			ret := valTerm(o.Ret)
 			if o.St.facts.eval(emptyCond) == Yes {
 				nEmpty++
@@ -103,7 +105,7 @@ func checkC05(c *Checker) {
 					okR3, d3 = false, "effect other than a destination sample store: "+e.String()
 					continue
 				}
-				if len(e.Loops) != 1 || !eqInt(e.Loops[0].Trip, N) {
+				if len(e.Loops) != 1 || !(eqInt(e.Loops[0].Trip, N) || eqUnder(e.Loops[0].Trip, N, here)) {
 					okR1, d1 = false, "store outside a loop over i < min(len(src), len(dst)): "+e.String()
 					continue
 				}
